@@ -28,12 +28,16 @@ MANIFEST = dict(
           "is orthogonal, so the angle between two stars is unchanged; a zero interval is the identity; the "
           "polynomials of the source satisfy zeta(T+t,-t) = -z(T,t), z(T+t,-t) = -zeta(T,t), theta(T+t,-t) = -theta(T,t) "
           "identically, so precessing there and back is exactly the identity on directions; proper motion enters as a "
-          "displacement of the starting coordinates by 100 t mu; Angle(0,0,seconds) acts as seconds/3600 degrees, so the "
+          "displacement of the starting coordinates by 100 t mu, each coordinate by its own proper motion, in all three "
+          "precession functions; Angle(0,0,seconds) acts as seconds/3600 degrees, so the "
           "Euler angles are the source's polynomials / 3600; precession_newcomb and precession_ecliptical have the "
           "same rotation structure with their own angles and are the identity for a zero interval; "
           "p_motion_equa2eclip keeps the total proper motion; motion_in_space returns the direction of r u + t V "
-          "(straight-line motion, linear in time); mean_obliquity(J2000) = 23d26'21.448\"; orbital_equinox2equinox never "
-          "raises and returns an inclination in [0,180] obeying the spherical cosine rule. NOT carried "
+          "(straight-line motion, linear in time); mean_obliquity within 10000 years of J2000 is 23d26'21.448\" plus Laskar's "
+          "polynomial term by term (signs and coefficients); orbital_equinox2equinox never raises, returns an "
+          "inclination in [0,180] obeying the spherical cosine rule, and the new elements describe the old orbit "
+          "turned by exactly the rotation precession_ecliptical applies to a direction: the orbit pole always, the "
+          "perihelion direction whenever the new inclination is not 0 or 180. NOT carried "
           "by a theorem (numerical agreements between different truncated series; measured on the implementation "
           "only): ecliptical there-and-back to 1e-6 degree, equatorial route vs ecliptical route through the mean "
           "obliquity of each epoch to 1e-4 degree, Newcomb vs FK5 to 0.005 degree for 1800-2100, orbital elements there "
